@@ -218,7 +218,9 @@ class Comparison(Display):
         elif (dop_1 := getattr(param1, "dop", None)) is not None and (dop_2 := getattr(
                 param2, "dop", None)) is not None:
 
-            if dop_1 != dop_2:
+            # (the unit is referenced by the DOP, i.e., a unit that was
+            # modified in place does not make the DOP objects differ)
+            if dop_1 != dop_2 or getattr(dop_1, "unit", None) != getattr(dop_2, "unit", None):
                 # TODO: compare INTERNAL-CONSTR, COMPU-INTERNAL-TO-PHYS of DOP
                 append_list("Linked DOP object", "", "")
 
